@@ -766,3 +766,124 @@ pub fn c08_typeir() -> i32 {
     } } }
     report(found, tried)
 }
+
+// ---------------------------------------------------------------------------------------------
+// C12 / U-TYEX: the per-type-def construction of example values, through the public API, on a catalogue registry that exercises every
+// arm of ty_example / fields_type_example (char, u256, i256 are left out: known findings of U-PRIMEX).  Per (type id, seed): terminates,
+// no panic, a value for every acyclic type without an empty enum, the value encodes against the same id, decodes back consuming all
+// input to an equal value, and the same seed gives the same value; a cyclic type or an empty enum gives an error, not a hang.
+fn c12_catalogue() -> (PortableRegistry, Vec<u32>, Vec<u32>) {
+    use TypeDefPrimitive as P;
+    let p = |x: P| ty("", vec![], prim(x));
+    let f = |n: &str, id: u32| field(Some(n), id, None);
+    let u = |id: u32| field(None, id, None);
+    let types = vec![
+        /* 0*/ p(P::U8), /* 1*/ p(P::U16), /* 2*/ p(P::U32), /* 3*/ p(P::U64), /* 4*/ p(P::U128), /* 5*/ p(P::Bool), /* 6*/ p(P::Str),
+        /* 7*/ p(P::I8), /* 8*/ p(P::I16), /* 9*/ p(P::I32), /*10*/ p(P::I64), /*11*/ p(P::I128),
+        /*12*/ ty("", vec![], tuple(vec![])),
+        /*13*/ ty("m::Empty", vec![], composite(vec![])),
+        /*14*/ ty("m::N", vec![], composite(vec![f("a", 0), f("b", 5), f("c", 6)])),
+        /*15*/ ty("m::U", vec![], composite(vec![u(1), u(9)])),
+        /*16*/ ty("m::W", vec![], composite(vec![f("x", 2)])),
+        /*17*/ ty("m::W1", vec![], composite(vec![u(3)])),
+        /*18*/ ty("m::E", vec![], variant(vec![("A", 0, vec![]), ("B", 1, vec![u(0)]), ("C", 2, vec![f("p", 1), f("q", 5)]), ("D", 7, vec![u(0), u(0), u(0)])])),
+        /*19*/ ty("", vec![], seq(0)),
+        /*20*/ ty("", vec![], seq(12)),
+        /*21*/ ty("", vec![], seq(14)),
+        /*22*/ ty("", vec![], arr(0, 0)),
+        /*23*/ ty("", vec![], arr(3, 1)),
+        /*24*/ ty("", vec![], arr(2, 18)),
+        /*25*/ ty("", vec![], tuple(vec![0])),
+        /*26*/ ty("", vec![], tuple(vec![0, 6, 15])),
+        /*27*/ ty("", vec![], compact(0)),
+        /*28*/ ty("", vec![], compact(2)),
+        /*29*/ ty("", vec![], compact(4)),
+        /*30*/ ty("", vec![], compact(16)),
+        /*31*/ ty("", vec![], compact(17)),
+        /*32*/ ty("m::C", vec![], composite(vec![f("c", 28), f("d", 0)])),
+        /*33*/ ty("bitvec::order::Lsb0", vec![], composite(vec![])),
+        /*34*/ ty("", vec![], bitseq(0, 33)),
+        /*35*/ ty("", vec![], seq(37)),
+        /*36*/ ty("", vec![], tuple(vec![0, 18])),
+        /*37*/ ty("", vec![], seq(36)),
+        /*38*/ ty("Option", vec![("T", Some(14))], variant(vec![("None", 0, vec![]), ("Some", 1, vec![u(14)])])),
+        /*39*/ ty("m::Big", vec![], composite(vec![f("f0", 0), f("f1", 19), f("f2", 26), f("f3", 18), f("f4", 23), f("f5", 12), f("f6", 32)])),
+        /*40*/ ty("", vec![], tuple(vec![25, 12])),
+        /*41*/ ty("", vec![], arr(2, 42)),
+        /*42*/ ty("", vec![], arr(2, 0)),
+        /*43*/ ty("m::Rec", vec![], composite(vec![f("next", 46)])),
+        /*44*/ ty("m::Never", vec![], variant(vec![])),
+        /*45*/ ty("m::HasNever", vec![], composite(vec![f("n", 44)])),
+        /*46*/ ty("", vec![], seq(43)),
+        /*47*/ ty("m::V1", vec![], variant(vec![("Only", 3, vec![f("a", 27), f("b", 20)])])),
+        /*48*/ ty("m::Deep", vec![], composite(vec![u(39), u(38), u(35)])),
+    ];
+    let err: Vec<u32> = vec![43, 44, 45, 46];
+    let ok: Vec<u32> = (0..types.len() as u32).filter(|i| !err.contains(i)).collect();
+    (registry(types), ok, err)
+}
+
+fn c12_one(reg: &PortableRegistry, id: u32, seed: u64, expect_ok: bool) -> Option<String> {
+    use scale_typegen_description::scale_value_from_seed;
+    let r = panic::catch_unwind(|| scale_value_from_seed(id, reg, seed));
+    match r {
+        Err(_) => Some("panic".to_string()),
+        Ok(Err(e)) => if expect_ok { Some(format!("no value although the type is acyclic and has no empty enum: {e}")) } else { None },
+        Ok(Ok(v)) => {
+            if !expect_ok { return Some(format!("a value {v:?} for a type that has no finite value")); }
+            let mut bytes = vec![];
+            if let Err(e) = scale_value::scale::encode_as_type(&v, id, reg, &mut bytes) {
+                return Some(format!("example {v:?} does not encode against its own type: {e}"));
+            }
+            let cur = &mut &bytes[..];
+            match scale_value::scale::decode_as_type(cur, id, reg) {
+                Err(e) => return Some(format!("bytes of example {v:?} do not decode: {e}")),
+                Ok(d) => {
+                    if !cur.is_empty() { return Some(format!("decoding the bytes of example {v:?} leaves {} bytes", cur.len())); }
+                    if d.clone().remove_context() != v {
+                        // a compact around a wrapper decodes to the bare number: compare the encodings instead
+                        let mut b2 = vec![];
+                        let same = scale_value::scale::encode_as_type(&d.clone().remove_context(), id, reg, &mut b2).is_ok() && b2 == bytes;
+                        let through_compact_wrapper = matches!(reg.resolve(id).map(|t| &t.type_def), Some(scale_info::TypeDef::Compact(_)));
+                        if !(same && through_compact_wrapper) { return Some(format!("example {v:?} decodes back to a different value {:?}", d.remove_context())); }
+                    }
+                }
+            }
+            match panic::catch_unwind(|| scale_value_from_seed(id, reg, seed)) {
+                Ok(Ok(v2)) if v2 == v => None,
+                _ => Some(format!("the same seed gave a different result the second time (first {v:?})")),
+            }
+        }
+    }
+}
+
+pub fn c12_structure(seeds: u64) -> i32 {
+    use std::sync::mpsc;
+    let (tx, rx) = mpsc::channel::<(String, Option<Option<String>>)>();
+    std::thread::Builder::new().stack_size(256 << 20).spawn(move || {
+        let (reg, ok, err) = c12_catalogue();
+        for seed in 0..seeds {
+            for (ids, expect_ok) in [(&ok, true), (&err, false)] {
+                for &id in ids.iter() {
+                    let label = format!("catalogue type #{id} ({}), seed {seed}", match &reg.types[id as usize].ty.type_def {
+                        scale_info::TypeDef::Composite(_) => "composite", scale_info::TypeDef::Variant(_) => "variant", scale_info::TypeDef::Sequence(_) => "sequence",
+                        scale_info::TypeDef::Array(_) => "array", scale_info::TypeDef::Tuple(_) => "tuple", scale_info::TypeDef::Primitive(_) => "primitive",
+                        scale_info::TypeDef::Compact(_) => "compact", scale_info::TypeDef::BitSequence(_) => "bit sequence" }.to_string() + " " + &reg.types[id as usize].ty.path.segments.join("::"));
+                    let _ = tx.send((label.clone(), None));
+                    let w = c12_one(&reg, id, seed, expect_ok);
+                    let _ = tx.send((label, Some(w)));
+                }
+            }
+        }
+    }).unwrap();
+    let mut tried = 0usize;
+    let mut current = String::new();
+    loop {
+        match rx.recv_timeout(std::time::Duration::from_secs(20)) {
+            Ok((label, None)) => { current = label; }
+            Ok((label, Some(w))) => { tried += 1; if let Some(w) = w { return report(Some((label, w)), tried); } }
+            Err(mpsc::RecvTimeoutError::Timeout) => { return report(Some((current, "does not terminate (no result after 20 s; every other item takes milliseconds)".into())), tried); }
+            Err(mpsc::RecvTimeoutError::Disconnected) => { return report(None, tried); }
+        }
+    }
+}
